@@ -469,6 +469,12 @@ func (e *EdgeQuery) findEdgesInternal(target distanceTarget, opts *queryOptions)
 	// distanceLimit < maxError, this reduces the distance limit to 0,
 	// i.e. all remaining candidate cells and edges can safely be discarded.
 	// (This is how IsDistanceLess() and friends are implemented.)
+	// A target that keeps state of its own (a ShapeIndex target reused from an
+	// earlier query) must not keep the maxError of that query when this one
+	// does not set it below.
+	if opts.maxError == target.distance().zero().chordAngle() {
+		e.target.setMaxError(0)
+	}
 	targetUsesMaxError := opts.maxError != target.distance().zero().chordAngle() &&
 		e.target.setMaxError(opts.maxError)
 
